@@ -38,6 +38,7 @@ type Script struct {
 	Trace   int
 	Mode    string // "" = decision
 	Default bool
+	DefBt   bool // the default rule enables backtracking
 	Steps   []Step
 }
 
@@ -306,6 +307,7 @@ func Generate(p Profile, n int, seed int64) []Script {
 		}
 
 		sc := Script{Trace: i + 1, Default: !(p.NoDefault && rng.Intn(3) == 0)}
+		sc.DefBt = sc.Default && rng.Intn(2) == 0
 		sets := map[string][]Rule{}
 
 		var pool [][]Tok
@@ -339,6 +341,13 @@ func Generate(p Profile, n int, seed int64) []Script {
 					// keep it unset here
 					for k := range st.Rules {
 						st.Rules[k].BtSet, st.Rules[k].Bt = "unset", false
+					}
+				} else {
+					// a rule that says nothing inherits the default rule's flag; one that says false keeps false
+					for k := range st.Rules {
+						if st.Rules[k].BtSet == "unset" {
+							st.Rules[k].Bt = sc.DefBt
+						}
 					}
 				}
 
